@@ -319,7 +319,8 @@ def run_history(bus, events, probe_names=6):
     w = World()
     conns = {}            # live connections (harness has not closed them and has not seen EOF)
     monitors = set()      # model ids that got the BecomeMonitor ack
-    sent_payload = {}     # (sender id, serial) -> Msg as sent (to check copies are intact)
+    sent_payload = {}     # canonical token (true sender filled in) -> Msg as sent, to check that copies are intact; serials may be reused
+                          # by a sender, and a held message is delivered long after it was sent, so (sender, serial) is not a key
     nextid = 0
     res = {"steps": [], "closed": [], "sent": [], "monitors": [], "intact_bad": [], "unique": w.uniq}
     obs_seen = []
@@ -366,8 +367,8 @@ def run_history(bus, events, probe_names=6):
             for m in msgs:
                 toks.append(w.msg_token(m))
                 s = m.fields.get(F_SENDER)
-                if s in w.by_unique and (w.by_unique[s], m.serial) in sent_payload:
-                    o = sent_payload[(w.by_unique[s], m.serial)]
+                if s in w.by_unique and toks[-1] in sent_payload:
+                    o = sent_payload[toks[-1]]
                     of = dict(o.fields)
                     if o.sig:
                         of[F_SIGNATURE] = o.sig
@@ -428,7 +429,6 @@ def run_history(bus, events, probe_names=6):
                     obs_seen.append([])
                     continue
                 m = build_event_msg(w, f)
-                sent_payload[(k, m.serial)] = m
                 c = conns[k]
                 try:
                     c.send(m)
@@ -437,6 +437,7 @@ def run_history(bus, events, probe_names=6):
                 m2 = Msg(m.mtype, m.flags, m.serial, dict(m.fields), m.sig, m.body)
                 m2.fields[F_SENDER] = w.uniq[k]
                 sent_tok = w.msg_token(m2)
+                sent_payload[sent_tok] = m
                 if f[0] == "B" and k not in monitors:
                     r = c.wait_reply(m.serial)
                     if r is not None:
